@@ -95,6 +95,9 @@ pub struct Scn {
     pub crash: Option<CrashSpec>,
     /// C08: run the liveness epilogue (fault configurations only)
     pub liveness: bool,
+    /// records (tid, n) whose encoder fails part-way (profile C05-encfail)
+    #[serde(default)]
+    pub enc_fail: Vec<(u16, u16)>,
     pub sched_seed: u64,
     pub policy: kernel::Policy,
 }
@@ -141,6 +144,7 @@ struct Shared {
     image_state: Mutex<Option<(PreState, Vec<RecId>)>>,
     /// byte-exact model checks are off (an archive on disk cannot be represented)
     lenient: Mutex<bool>,
+    enc_fail: Vec<(u16, u16)>,
     /// a truncate-mode (re)open is under way: the active chunk may already be gone
     truncating: Mutex<bool>,
     /// set when a fault made the byte model unreliable; cleared by resync
@@ -199,10 +203,33 @@ impl std::fmt::Debug for Shared {
     }
 }
 
+struct Counting<'a> {
+    w: &'a mut dyn encode::Write,
+    seen: Vec<u8>,
+}
+
+impl<'a> std::io::Write for Counting<'a> {
+    fn write(&mut self, buf: &[u8]) -> std::io::Result<usize> {
+        let n = self.w.write(buf)?;
+        self.seen.extend_from_slice(&buf[..n]);
+        Ok(n)
+    }
+    fn flush(&mut self) -> std::io::Result<()> {
+        self.w.flush()
+    }
+}
+
+impl<'a> encode::Write for Counting<'a> {
+    fn set_style(&mut self, style: &encode::Style) -> std::io::Result<()> {
+        self.w.set_style(style)
+    }
+}
+
 impl Encode for ProbeEncoder {
     fn encode(&self, w: &mut dyn encode::Write, record: &log::Record) -> anyhow::Result<()> {
         let text = record.args().to_string();
-        if let Some(id) = CUR.with(|c| c.get()) {
+        let cur = CUR.with(|c| c.get());
+        if let Some(id) = cur {
             let mut m = self.sh.model.lock().unwrap();
             if let Some((other, _)) = &m.pending {
                 if !*self.sh.dirty.lock().unwrap() {
@@ -216,7 +243,23 @@ impl Encode for ProbeEncoder {
             }
             kernel::note("encode", &id.to_string());
         }
-        self.inner.encode(w, record)
+        let mut cw = Counting { w, seen: vec![] };
+        let res = self.inner.encode(&mut cw, record);
+        if let (Err(_), Some(id)) = (&res, cur) {
+            // the encoder failed part-way: what it had written stays in the
+            // appender's buffer; the record is not part of the stream
+            let mut m = self.sh.model.lock().unwrap();
+            if m.pending.as_ref().map(|p| p.0 == id).unwrap_or(false) {
+                m.pending = None;
+            }
+            if m.stream.last() == Some(&id) {
+                m.stream.pop();
+            }
+            m.limbo.extend_from_slice(&cw.seen);
+            m.unacked.insert(id);
+            self.sh.sink.probe("encoder_failures", 1);
+        }
+        res
     }
 }
 
@@ -564,6 +607,31 @@ fn gen_start(rng: &mut Rng, tz: &str) -> i64 {
     (anchor + off) * 1_000_000_000 + if rng.chance(1, 3) { rng.below(1_000_000_000) as i64 } else { 0 }
 }
 
+pub fn generate_encfail(rng: &mut Rng, tier: Tier, base_profile: &str) -> Scn {
+    let mut s = generate(rng, tier, base_profile);
+    s.encoder = EncKind::Chunk { seed: rng.next_u64() };
+    let mut tid = 0u16;
+    for ph in s.phases.iter_mut() {
+        match ph {
+            Phase::Restart { overlap, .. } => *overlap = false,
+            Phase::Work { threads } => {
+                for t in threads.iter() {
+                    for op in t {
+                        if let Op::Append { n, .. } = op {
+                            if rng.chance(1, 4) {
+                                s.enc_fail.push((tid, *n));
+                            }
+                        }
+                    }
+                    tid += 1;
+                }
+            }
+            _ => {}
+        }
+    }
+    s
+}
+
 pub fn generate(rng: &mut Rng, tier: Tier, profile: &str) -> Scn {
     let trigger = gen_trigger(rng, profile);
     let roller = gen_roller(rng, tier, true);
@@ -694,6 +762,7 @@ pub fn generate(rng: &mut Rng, tier: Tier, profile: &str) -> Scn {
         faults: vec![],
         crash: None,
         liveness: profile == "C08-obst",
+        enc_fail: vec![],
         sched_seed: rng.next_u64(),
         policy: common::gen_policy(rng),
     }
@@ -748,7 +817,11 @@ fn build_appender(scn: &Scn, sh: &Arc<Shared>, append: bool) -> anyhow::Result<R
     let trigger = ProbeTrigger { inner, sh: sh.clone() };
     let roller = ProbeRoller { inner: rmodel::build_roller(&scn.roller, &sh.names)?, sh: sh.clone() };
     let policy = CompoundPolicy::new(Box::new(trigger), Box::new(roller));
-    let enc = ProbeEncoder { inner: common::make_encoder(&scn.encoder), sh: sh.clone() };
+    let inner_enc: Box<dyn Encode> = match &scn.encoder {
+        EncKind::Chunk { seed } if !scn.enc_fail.is_empty() => Box::new(common::ChunkEncoder { seed: *seed, fail: scn.enc_fail.clone() }),
+        e => common::make_encoder(e),
+    };
+    let enc = ProbeEncoder { inner: inner_enc, sh: sh.clone() };
     let a = RollingFileAppender::builder().append(append).encoder(Box::new(enc)).build(&sh.names.active, Box::new(policy))?;
     Ok(a)
 }
@@ -784,6 +857,9 @@ fn do_append(sh: &Arc<Shared>, appender: &RollingFileAppender, id: RecId, len: u
             let mut placed = fl.encoded;
             if let Some((pid, bytes)) = m.pending.clone() {
                 if pid == id {
+                    // the flush wrote out leftovers of earlier failed encodes first
+                    let limbo = std::mem::take(&mut m.limbo);
+                    m.active.extend_from_slice(&limbo);
                     m.active.extend_from_slice(&bytes);
                     m.pending = None;
                 }
@@ -880,6 +956,14 @@ fn do_append(sh: &Arc<Shared>, appender: &RollingFileAppender, id: RecId, len: u
         }
         Err(e) => {
             kernel::note("return", &format!("{} err", id));
+            if sh.enc_fail.contains(&(id.tid, id.n)) {
+                // injected encoder failure: nothing acknowledged may be damaged
+                if !bg_rotation_in_flight() && !*sh.dirty.lock().unwrap() {
+                    let m = sh.model.lock().unwrap();
+                    m.check(&sh.names, &sh.sink, attr_for(sh), others > 0, &format!("after the failed append of {} (encoder error)", id));
+                }
+                return;
+            }
             if !sh.fault_mode {
                 sh.sink.fail("C05", "C05-E0", "append-failed", format!("append of {} failed although nothing was injected: {:#}", id, e));
                 return;
@@ -933,7 +1017,7 @@ fn after_fault(sh: &Arc<Shared>, unacked: &HashSet<RecId>, when: &str) {
 }
 
 pub fn setup_tree(scn: &Scn, names: &Names) -> Model {
-    let mut model = Model { roller: scn.roller.clone(), active: vec![], pending: None, window: BTreeMap::new(), others: BTreeMap::new(), stream: vec![], rolls_ok: 0 };
+    let mut model = Model { roller: scn.roller.clone(), active: vec![], pending: None, limbo: vec![], unacked: HashSet::new(), window: BTreeMap::new(), others: BTreeMap::new(), stream: vec![], rolls_ok: 0 };
     fs::create_dir_all(names.root.join("log")).unwrap();
     fs::create_dir_all(names.root.join("arch")).unwrap();
     let managed = model.managed();
@@ -1021,6 +1105,7 @@ pub fn execute(scn: &Scn, opts: &ExecOpts) -> Outcome {
         image: Mutex::new(None),
         image_state: Mutex::new(None),
         lenient: Mutex::new(false),
+        enc_fail: scn.enc_fail.clone(),
         truncating: Mutex::new(false),
         dirty: Mutex::new(false),
         c16_boundary_fires: Mutex::new(0),
@@ -1096,9 +1181,25 @@ pub fn execute(scn: &Scn, opts: &ExecOpts) -> Outcome {
                         if dirty {
                             // process death without running destructors: user-space buffers are lost
                             std::mem::forget(a);
+                            {
+                                // the buffer is lost, except for what it had already spilled to the file
+                                let mut m = sh.model.lock().unwrap();
+                                if !m.limbo.is_empty() {
+                                    let disk = fs::read(&sh.names.active).unwrap_or_default();
+                                    if disk.starts_with(&m.active) && m.limbo.starts_with(&disk[m.active.len()..]) {
+                                        m.active = disk;
+                                    }
+                                    m.limbo.clear();
+                                }
+                            }
                             sh.sink.probe("dirty_restarts", 1);
                         } else {
                             drop(a);
+                            // closing the writer flushes what a failed encoder left in the buffer
+                            let mut m = sh.model.lock().unwrap();
+                            let limbo = std::mem::take(&mut m.limbo);
+                            m.active.extend_from_slice(&limbo);
+                            drop(m);
                             sh.sink.probe("clean_restarts", 1);
                         }
                     }
@@ -1117,11 +1218,7 @@ pub fn execute(scn: &Scn, opts: &ExecOpts) -> Outcome {
                             if !append {
                                 let mut m = sh.model.lock().unwrap();
                                 // truncate mode discards exactly the active chunk, at open
-                                // the active file's records are the tail of the stream
-                                let n = frame::whole_ids(&m.active).len();
-                                let keep = m.stream.len() - n.min(m.stream.len());
-                                m.stream.truncate(keep);
-                                m.active.clear();
+                                m.discard_active();
                             }
                             if !*sh.dirty.lock().unwrap() && !*sh.lenient.lock().unwrap() {
                                 let at = if sh.fault_mode { attr_for(&sh) } else { Attr { prop: "C05", data: "C05-I4", other_prop: "C07", other: "C07-I4", sig: "" } };
@@ -1138,10 +1235,7 @@ pub fn execute(scn: &Scn, opts: &ExecOpts) -> Outcome {
                                     // truncate mode discards the active chunk at open time, whether or
                                     // not the rest of the start-up then succeeds
                                     let mut m = sh.model.lock().unwrap();
-                                    let n = frame::whole_ids(&m.active).len();
-                                    let keep = m.stream.len().saturating_sub(n);
-                                    m.stream.truncate(keep);
-                                    m.active.clear();
+                                    m.discard_active();
                                 }
                                 let unacked = HashSet::new();
                                 after_fault(&sh, &unacked, &format!("after the failed (re)open ({:#})", e));
@@ -1277,7 +1371,7 @@ pub fn execute(scn: &Scn, opts: &ExecOpts) -> Outcome {
     let image = sh.image.lock().unwrap().clone();
     if let (Some((img, img2)), true) = (image, scn.liveness && !stop && !sink.any() && out.harness_error.is_none()) {
         let names2 = Names::new(&img, img2.as_deref(), &scn.roller);
-        let mut model2 = Model { roller: scn.roller.clone(), active: vec![], pending: None, window: BTreeMap::new(), others: BTreeMap::new(), stream: vec![], rolls_ok: 0 };
+        let mut model2 = Model { roller: scn.roller.clone(), active: vec![], pending: None, limbo: vec![], unacked: HashSet::new(), window: BTreeMap::new(), others: BTreeMap::new(), stream: vec![], rolls_ok: 0 };
         let exact = model2.resync(&names2);
         let sh2 = Arc::new(Shared {
             names: names2,
@@ -1293,6 +1387,7 @@ pub fn execute(scn: &Scn, opts: &ExecOpts) -> Outcome {
             image: Mutex::new(None),
             image_state: Mutex::new(None),
             lenient: Mutex::new(!exact),
+            enc_fail: vec![],
             truncating: Mutex::new(false),
             dirty: Mutex::new(false),
             c16_boundary_fires: Mutex::new(0),
@@ -1415,11 +1510,7 @@ fn liveness_epilogue(k: &Arc<kernel::Kernel>, scn: &Scn, sh: &Arc<Shared>, live:
                 Ok(a) => {
                     if !mode {
                         let mut m = sh.model.lock().unwrap();
-                        // the active file's records are the tail of the stream
-                        let n = frame::whole_ids(&m.active).len();
-                        let keep = m.stream.len().saturating_sub(n);
-                        m.stream.truncate(keep);
-                        m.active.clear();
+                        m.discard_active();
                     }
                     let a = Arc::new(a);
                     live.lock().unwrap().appender = Some(a.clone());
@@ -1588,7 +1679,7 @@ pub fn shrink(s: &Scn) -> Vec<Scn> {
         c.pre_active = None;
         out.push(c);
     }
-    if s.encoder != EncKind::Pattern {
+    if s.encoder != EncKind::Pattern && s.enc_fail.is_empty() {
         let mut c = s.clone();
         c.encoder = EncKind::Pattern;
         out.push(c);
@@ -1596,6 +1687,11 @@ pub fn shrink(s: &Scn) -> Vec<Scn> {
     for i in 0..s.faults.len() {
         let mut c = s.clone();
         c.faults.remove(i);
+        out.push(c);
+    }
+    for i in 0..s.enc_fail.len() {
+        let mut c = s.clone();
+        c.enc_fail.remove(i);
         out.push(c);
     }
     for (pi, p) in s.phases.iter().enumerate() {
